@@ -22,7 +22,7 @@
                                  [shadowing_risk_prog] holds of the source AND the first ill-typed stage is core
                                  AND the failure is an occurrence resolved to a binder of another chirality/type
                                  (or two parameters of the same name in a shared continuation share_<def>_<k>)
-     VIOL class=call-to-main-typing <name> core: <why>      the FORMER finding call-to-main (C02; repaired in /repo by <commitmain>;
+     VIOL class=call-to-main-typing <name> core: <why>      the FORMER finding call-to-main (C02; repaired in /repo by f929eb7;
                                  no known_findings entry matches it any more: a plain violation now): ONLY when
                                  [calls_main_prog] holds of the source AND the first ill-typed stage is core
                                  AND the failure is the arity of a call of main
@@ -262,7 +262,7 @@ Definition wtstages_case (i r : sexp) : verdict :=
               else if g2 && negb (String.eqb st "checked") && negb (contains "wt_core (embed_prog f) rejects" why)
               then VViol ("class=ill-typed-stage:" ++ st ++ "-inside-pipeline-guard " ++ name ++ " the guards of C12_pipeline_wt_source hold but: " ++ trunc 300 why)
               else
-              (* former finding call-to-main (C02; repaired by <commitmain>, a plain violation now): main was compiled without a return continuation, a call
+              (* former finding call-to-main (C02; repaired by f929eb7, a plain violation now): main was compiled without a return continuation, a call
                  of main passes one - the FIRST ill-typed stage is core and the failure is that call's arity *)
               if calls_main_prog fp && String.eqb st "core" && contains "call main: wrong number of arguments" why
               then VViol ("class=call-to-main-typing " ++ name ++ " core: " ++ trunc 300 why)
